@@ -1,6 +1,7 @@
 (* Extraction of the arena model and the C19 oracle for the correspondence driver.
-   ExtrOcamlBasic only; no Extract Constant; N/positive/nat stay Coq datatypes. *)
+   ExtrOcamlBasic only; no Extract Constant; N/positive/nat stay Coq datatypes.
+   Definitions files only (ArenaDefs, ArenaSpec, ArenaClientDefs): the driver still builds when a proof breaks. *)
 From Coq Require Import Extraction ExtrOcamlBasic.
-From Robsd Require Import Arena.ArenaDefs Arena.ArenaSpec.
+From Robsd Require Import Arena.ArenaDefs Arena.ArenaSpec Arena.ArenaClientDefs.
 Extraction Language OCaml.
-Extraction "ar_model.ml" hrun init mkCfg spec_check spec_ok.
+Extraction "ar_model.ml" hrun cut_exposed init mkCfg spec_check spec_ok buf_reserve vec_reserve buf_newsiz vec_newsiz reserve_sizes mkBuf mkVec buf_hist vec_hist.
